@@ -98,5 +98,6 @@ pub fn run(mut ctx: Ctx) -> ! {
         move || strategies::c05_script(max_len),
         check_script,
     );
+    crate::props::c05_concurrent::part(&mut ctx);
     ctx.finish()
 }
